@@ -44,9 +44,10 @@ def run_panics(res, prog, fns, rid, floor_sites, floor_fns=None):
         used |= d.used_table
         for k in d.used_table:
             bk = (table.get(k) or {}).get('backing')
-            if bk:
-                bmap = res.extra.setdefault('_backings', {})
-                bmap[bk] = bmap.get(bk, 0) + 1
+            for one in (bk or '').split(','):
+                if one:
+                    bmap = res.extra.setdefault('_backings', {})
+                    bmap[one] = bmap.get(one, 0) + 1
         for s in sites:
             nsites += 1
             v = s.verdict or 'OPEN'
@@ -133,9 +134,10 @@ def run_loops(res, prog, fns, rid, floor_l3):
                 res.violation(rid, k, f, lp.line, 'loop without an iterator-driven exit and without a reviewed variant (%s)' % (lp.why or 'hand-written loop'))
             else:
                 res.sample({'rule': rid, 'loop': k[:200], 'variant': e['variant'][:200]})
-                if e.get('backing'):
-                    bmap = res.extra.setdefault('_backings', {})
-                    bmap[e['backing']] = bmap.get(e['backing'], 0) + 1
+                for one in (e.get('backing') or '').split(','):
+                    if one:
+                        bmap = res.extra.setdefault('_backings', {})
+                        bmap[one] = bmap.get(one, 0) + 1
     # recursion among the functions in scope
     names = {f.qual: f for f in fns}
     graph = {f.qual: set() for f in fns}
@@ -159,9 +161,10 @@ def run_loops(res, prog, fns, rid, floor_l3):
             res.violation(rid, k, f, f.line, 'recursive call cycle without a reviewed variant')
         else:
             l3 += 1
-            if table[k].get('backing'):
-                bmap = res.extra.setdefault('_backings', {})
-                bmap[table[k]['backing']] = bmap.get(table[k]['backing'], 0) + 1
+            for one in (table[k].get('backing') or '').split(','):
+                if one:
+                    bmap = res.extra.setdefault('_backings', {})
+                    bmap[one] = bmap.get(one, 0) + 1
     res.rule(rid, sum(counts.values()) + len(rec), floor=None, note='natural loops: %s; recursive cycles: %d' % (counts, len(rec)))
     res.rule(rid + '.L3', l3, floor=floor_l3, note='hand-written loops / recursion needing a reviewed variant')
     res.extra.setdefault('loops', {})[rid] = counts
